@@ -1,5 +1,6 @@
 """C10 Transition sequences are sound oracles: replaying them rebuilds the tree."""
 import os
+import gzip
 import io
 import itertools
 from .. import model, sweep, codecs, cli
@@ -246,9 +247,14 @@ def check_cli(system, shapes_n):
     src = os.path.join(scratch(), 'c10.export')
     with open(src, 'w', encoding='utf-8') as f:
         f.write(codecs.encode_export(mts))
-    for use_pos, topnode in ((False, False), (True, False), (False, True)):
+    gzsrc = os.path.join(scratch(), 'c10l1.export.gz')
+    with gzip.open(gzsrc, 'wb') as f:
+        f.write(codecs.encode_export(mts).replace('\nw', '\nä').encode('iso-8859-1'))
+    for use_pos, topnode, zipped in ((False, False, False), (True, False, False), (False, True, False), (False, False, True)):
         dest = os.path.join(scratch(), 'c10.%s.%d.trans' % (system, use_pos))
-        argv = ['transitions', src, dest, system, '--transform', 'negra_mark_heads'] + (['add_topnode'] if topnode else [])
+        argv = ['transitions', gzsrc if zipped else src, dest, system, '--transform', 'negra_mark_heads'] + (['add_topnode'] if topnode else [])
+        if zipped:
+            argv += ['--src-enc', 'iso-8859-1']
         if use_pos:
             argv += ['--dest-opts', 'pos']
         st, so, se, exc = cli.run(argv)
@@ -271,7 +277,7 @@ def check_cli(system, shapes_n):
                 bad('line-format', repr(ln))
                 continue
             sent, seq = ln.split(' ||| ')
-            exp_sent = ' '.join(tk['pos'] if use_pos else tk['word'] for tk in m.toks)
+            exp_sent = ' '.join(tk['pos'] if use_pos else ('ä' + tk['word'][1:] if zipped else tk['word']) for tk in m.toks)
             if sent != exp_sent:
                 bad('sentence', 'line has %r, expected %r' % (sent, exp_sent))
             try:
@@ -285,6 +291,7 @@ def check_cli(system, shapes_n):
                 bad('replay-stuck', 'tree %s: %s (%s)' % (model.mt_str(m.root, m.toks), seq, e))
     # writer called directly with a stream of (sentence, transitions) pairs
     os.unlink(src)
+    os.unlink(gzsrc)
     return out, len(mts)
 
 
